@@ -1,5 +1,5 @@
 (* C13 — AllowMissingPathOnRemove (v5 model). *)
-From JP Require Import Bytes Json Text ImplV5 ApplyFacts.
+From JP Require Import Bytes Json Text Strings Den Pointer Rfc6902 ImplV5 Domain ImplFacts RefFacts ApplyFacts ApplySim AllowEnsureFacts.
 
 (* all other operations behave exactly as without the option: the step function of every
    operation that is not a remove is the same function with the option on or off
@@ -25,6 +25,60 @@ Theorem C13_no_new_error_kinds : forall o st op e,
   op_kind op = KRemove -> step o st op = Err e -> plain_err e = true.
 Proof. intros o st op e K H. unfold step in H. rewrite K in H. eapply op_remove_nocl; eauto. Qed.
 Print Assumptions C13_no_new_error_kinds.
+
+(* the skip case, one remove (path "/tok/.../tok", tokens in the domain of C01): against the
+   reference's remove on the document value.  The reference removes: so does the model.  The
+   reference fails because the member is absent, an ancestor is absent or no container, or the
+   index (an index of the dialect) is out of range: the operation succeeds, the document value and
+   the accumulated copy size are unchanged.  NOT forgiven: a last token on an array that is no index
+   of the dialect (a name, or a negative number while SupportNegativeIndices is off) *)
+Theorem C13_skip_one_remove : forall o st op r c,
+  s_root st = RCon c -> cgood c -> o_allow o = true ->
+  op_str op (B "path") = Ok (x2f :: r) -> Forall tok_dom (map decode_token (split_slash r)) ->
+  match at_parent (dia o) (ptoks r) (cval c) (remove_leaf (dia o)) with
+  | Rfc6902.Ok j' => exists st', op_remove o st op = Ok st' /\ sval st' = j' /\ sgood st' /\ s_acc st' = s_acc st
+  | Rfc6902.Fail cz =>
+      if skip_cause (dia o) (path_key r) cz
+      then exists st', op_remove o st op = Ok st' /\ sval st' = sval st /\ sgood st' /\ s_acc st' = s_acc st
+      else cz = FIndex /\ exists e, op_remove o st op = Err e /\ (e = EInvalidIndex \/ e = EAtoi)
+  end.
+Proof. exact op_remove_allow_sim. Qed.
+Print Assumptions C13_skip_one_remove.
+
+(* a document that was replaced by null: every remove is skipped *)
+Theorem C13_skip_on_null_root : forall o st op path,
+  s_root st = RNull -> o_allow o = true -> op_str op (B "path") = Ok path -> op_remove o st op = Ok st.
+Proof. exact remove_on_null_root_skipped. Qed.
+Print Assumptions C13_skip_on_null_root.
+
+(* whole patches (option on, EnsurePathExistsOnAdd off, no copy-size limit, operations in the
+   domain of C01): the outcome equals that of applying, with the option off, the patch with exactly
+   the skipped removes deleted (strip follows the reference run and deletes the removes whose
+   target does not resolve at that moment): both succeed with the same document value, or both fail
+   at the same operation for the same reference cause *)
+Theorem C13_equals_stripped_patch : forall o p i st,
+  allow_opts o -> (has_copy p -> codec_ok) -> sgood st -> Forall op_dom p ->
+  let p' := strip (dia o) (sval st) p in
+  match apply_from (set_allow o false) i st p' with
+  | AOk st2 => exists st1, apply_from o i st p = AOk st1 /\ sval st1 = sval st2 /\ sgood st1 /\ sgood st2
+  | AErr k e2 => exists k1 e1 cz, apply_from o i st p = AErr k1 e1 /\ cause_rel cz e1 /\ cause_rel cz e2 /\
+                   (i <= k1)%nat /\ (i <= k)%nat /\ nth_error p (k1 - i) = nth_error p' (k - i)
+  | APanic _ => False
+  end.
+Proof. exact allow_equals_stripped. Qed.
+Print Assumptions C13_equals_stripped_patch.
+
+(* the same against the reference: the run with the option on IS the reference run of the stripped patch *)
+Theorem C13_reference_of_stripped_patch : forall o, allow_opts o -> forall p, (has_copy p -> codec_ok) -> forall i i' st,
+  sgood st -> Forall op_dom p ->
+  match rfc_apply_from (dia o) i' (sval st) (map den_op (strip (dia o) (sval st) p)) with
+  | Done doc => exists st', apply_from o i st p = AOk st' /\ sval st' = doc /\ sgood st'
+  | Failed k cz => exists k1 e, apply_from o i st p = AErr k1 e /\ cause_rel cz e /\
+                     (i <= k1)%nat /\ (i' <= k)%nat /\
+                     nth_error p (k1 - i) = nth_error (strip (dia o) (sval st) p) (k - i')
+  end.
+Proof. exact allow_strip_ref. Qed.
+Print Assumptions C13_reference_of_stripped_patch.
 
 (* non-vacuity: absent member, out-of-range index and absent ancestor are skipped; the existing
    target is removed; the add in between is applied *)
